@@ -242,6 +242,8 @@ def latest_cases(chk, drv, work):
             times = [rng.choice([7, 120, 4500])]
         rng.shuffle(times)
         want_time = rng.choice([None, None, rng.choice(times)])
+        if it % 3 == 1 and len(times) > 1:
+            want_time = rng.choice(sorted(times)[:-1])           # an explicit time point that is NOT the newest checkpoint
         layname = rng.choice(sorted(STD4))
         base = np.random.RandomState(it).normal(size=npts)
         cfile = os.path.join(work, 'c_%d.json' % it)
@@ -403,6 +405,48 @@ def latest_cases(chk, drv, work):
 
 # ------------------------------------------------------------------------------------------------
 # C. the parameter file
+
+def fresh_folder_cases(chk, work):
+    """a run that lets setupSave choose its folder gets a folder of its own: one that did not exist before, whatever simulation_* entries
+    (with gaps in the numbering, files of that name, checkpoints of older runs) the working directory holds - else a later restart
+    continues a FOREIGN run from a foreign time"""
+    from pygyro.initialisation.constants import Constants
+    from pygyro.utilities.savingTools import setupSave
+    rng = chk.rng
+    cwd = os.getcwd()
+    for it in range(chk.n(4, 12)):
+        wd = os.path.join(work, 'cwd%d' % it)
+        os.makedirs(wd)
+        existing = [[0, 2], [1], [0, 1, 3], [2, 5], [0, 1, 2], []][it % 6]
+        for k in existing:
+            os.makedirs(os.path.join(wd, 'simulation_%d' % k))
+            open(os.path.join(wd, 'simulation_%d' % k, 'grid_000100.h5'), 'w').close()
+        if it % 3 == 1:
+            open(os.path.join(wd, 'simulation_notes.txt'), 'w').close()          # a FILE whose name matches simulation_*
+        before = set(os.listdir(wd))
+        nranks = [1, 2, 3][it % 3]
+        root = rng.randrange(nranks)
+        os.chdir(wd)
+        try:
+            res = lu.run_ranks(nranks, lambda: setupSave(Constants(), None, MPI.COMM_WORLD, root))
+        finally:
+            os.chdir(cwd)
+        case = {'existing_entries': sorted(before), 'nranks': nranks, 'root': root}
+        if not res.ok:
+            chk.fail('C18:setupSave-crash', 'setupSave(constants, None, comm, root) raised: ' + str(res.first_error())[:200], case)
+            continue
+        names = set(res.values())
+        if len(names) != 1:
+            chk.fail('C18:fresh-folder', 'the processes disagree on the folder of the run: %s' % sorted(names), case)
+            continue
+        f = names.pop()
+        if os.path.basename(f.rstrip('/')) in before or not os.path.isfile(os.path.join(wd, f, 'initParams.json')) \
+           or os.listdir(os.path.join(wd, f)) != ['initParams.json']:
+            chk.fail('C18:fresh-folder', 'setupSave without a folder name did not give the run a new folder of its own (it returned %r; it holds %s)'
+                     % (f, sorted(os.listdir(os.path.join(wd, f))) if os.path.isdir(os.path.join(wd, f)) else 'nothing'), case)
+        chk.count('fresh folder chosen by setupSave')
+        chk.case(('fresh', tuple(sorted(before)), nranks), nontrivial=bool(existing))
+
 
 def public_attrs(c):
     out = {}
@@ -820,6 +864,7 @@ def run(chk):
     try:
         roundtrip_cases(chk, drv, work)
         latest_cases(chk, drv, work)
+        fresh_folder_cases(chk, work)
         constants_cases(chk, drv, work)
         if prog is not None:
             plan = QUICK_PLAN if chk.quick() else THOROUGH_PLAN
